@@ -515,6 +515,19 @@ Definition i_heap_content_grow :=
           (arr_destroy_v [slot_v 220 201; slot_v 221 202; slot_v 222 203; slot_v 223 204; slot_v 224 200] arr_destroy_g)
           [0] [200; 201; 202; 203; 204].
 
+(* ================= log handlers owning a FILE* (0 = handler->fp) =================
+   fopen / fclose are acquisition / release of the third resource class; fwrite / fflush on a
+   closed handle is a use after close, a second fclose a double close. *)
+Definition fp_destroy : list stmt := [ IfSet 0 [Free 0; SetNull 0] ].
+Definition i_log_file_handler := ctor [Alloc 0; IfNull [0] (H 83 [RF]); RO] fp_destroy [0].
+Definition lrh_init : list stmt := [ Alloc 0; IfNull [0] (H 84 [RF]); Use 0; RO ].
+Definition i_log_rotate_handler := ctor lrh_init fp_destroy [0].
+(* muggle_log_file_rotate_handler_rotate / _write *)
+Definition lrh_rotate : list stmt := [ IfSet 0 [Free 0; SetNull 0]; Alloc 0; IfNull [0] (H 81 [RF]); RO ].
+Definition lrh_write : list stmt := [ IfSet 0 [Use 0; Call lrh_rotate false (H 82 [])]; RO ].
+Definition i_log_rotate_write :=
+  mkscn [call lrh_init] [call lrh_write; call lrh_write; RO] fp_destroy [0] false true true [] false.
+
 (* ================= table used by the drivers (id -> scenario) ================= *)
 Definition inst_table : list (nat * scn) :=
   [ (0, i_chan_mutex); (1, i_chan_nolock); (2, i_ring_buffer); (3, i_ma_ring); (4, i_dbuf); (5, i_abq);
@@ -540,6 +553,7 @@ Definition inst_table : list (nat * scn) :=
     (69, i_ll_content_head); (70, i_ll_content_pool_full); (71, i_queue_content); (72, i_queue_content_pool_full);
     (73, i_array_list_content_index0_full); (74, i_array_list_content_index0_grow); (75, i_heap_content_grow);
     (76, i_stack_content_full);
+    (77, i_log_file_handler); (78, i_log_rotate_handler); (79, i_log_rotate_write);
     (* transcriptions of the unchanged (defective) code *)
     (100, i_chan_mutex_orig); (103, i_ma_ring_orig); (104, i_dbuf_orig); (109, i_sowr_orig);
     (110, i_ts_orig); (118, i_avl_init_orig); (121, i_ht_init_orig); (126, i_ll_init_orig);
